@@ -6,7 +6,7 @@
    returned by its last atomic load).  One step is exactly one sync/atomic call of the Go code.
    A schedule is a list of thread ids; `run_sched` executes it; a thread that has finished (or
    an id that names no thread) stutters.  Theorems quantify over ALL schedules. *)
-From XMT Require Import Base.Prelude.
+From XMT Require Import Base.Prelude Model.State.
 
 (* ---- generic machine ---------------------------------------------------- *)
 Inductive ctl : Type := Next | Goto (pc : nat).
@@ -115,15 +115,78 @@ Definition linearisable (m : mutator) : bool :=
   | _, _ => false
   end.
 
-(* the function such a mutator applies to the word at its commit point *)
+(* the function such a mutator applies to the word at its commit point.  A read-modify-write call
+   evaluates its operand with the register still at its initial value 0 (the translator refuses an
+   operand that mentions a loaded value). *)
 Definition commit_fn (m : mutator) (arg : Z) (w : Z) : Z :=
   match m_ops m with
   | [ALoad; ACas e] => eval e w arg
-  | [AOr e] => Z.lor w (eval e w arg)
-  | [AAnd e] => Z.land w (eval e w arg)
+  | [AOr e] => Z.lor w (eval e 0 arg)
+  | [AAnd e] => Z.land w (eval e 0 arg)
   | _ => w
   end.
 
 (* what a load-then-store mutator writes when nothing intervenes (its sequential meaning) *)
 Definition seq_fn (m : mutator) (arg : Z) (w : Z) : Z :=
   fst (fold_left (fun '(w, r) o => let '(w', r', _) := step_of arg o w r in (w', r')) (m_ops m) (w, 0)).
+
+(* ---- concurrent calls ------------------------------------------------------ *)
+(* one call = a mutator with its argument; thread i of the initial configuration executes call i *)
+Definition call : Type := (mutator * Z)%type.
+Definition thread_of (c : call) : thread := instantiate (fst c) (snd c).
+Definition commit (c : call) (w : Z) : Z := commit_fn (fst c) (snd c) w.
+Definition init (w0 : Z) (cs : list call) : config := (w0, map thread_of cs).
+
+(* the calls applied one after the other, each in one piece, in the given order of thread ids *)
+Definition apply_calls (cs : list call) (order : list nat) (w0 : Z) : Z :=
+  fold_left (fun w i => match nth_error cs i with Some c => commit c w | None => w end) order w0.
+
+Definition inb (i : nat) (l : list nat) : bool := existsb (Nat.eqb i) l.
+
+(* ---- the calls of the state word --------------------------------------------- *)
+(* a call of one of the three mutators of c2/state.go, its meaning on the word in one piece
+   (Model/State.v), and the thread that executes it given the atomic shapes of the three methods
+   (the translated ones of Gen/StateAtomics.v, or the old ones of the regression section) *)
+Inductive mcall : Type := MSet (v : Z) | MUnset (v : Z) | MSetLast (g : Z).
+
+Definition mcall_fn (c : mcall) (w : Z) : Z :=
+  match c with MSet v => st_set w v | MUnset v => st_unset w v | MSetLast g => st_setlast w g end.
+
+Definition to_call (mset munset msetlast : mutator) (c : mcall) : call :=
+  match c with MSet v => (mset, v) | MUnset v => (munset, v) | MSetLast g => (msetlast, g) end.
+
+(* the calls applied in one piece in the given order of thread ids *)
+Definition apply_mcalls (cs : list mcall) (order : list nat) (w0 : Z) : Z :=
+  fold_left (fun w i => match nth_error cs i with Some c => mcall_fn c w | None => w end) order w0.
+
+Definition sets_bit (k : Z) (c : mcall) : bool := match c with MSet v => Z.testbit v k | _ => false end.
+Definition clears_bit (k : Z) (c : mcall) : bool := match c with MUnset v => Z.testbit v k | _ => false end.
+(* the argument stays inside the half the method owns *)
+Definition arg_in_half (c : mcall) : Prop :=
+  match c with MSet v => half_ok v | MUnset v => half_ok v | MSetLast g => half_ok g end.
+Definition is_flag_call (c : mcall) : bool := match c with MSetLast _ => false | _ => true end.
+(* the effect of the call on the flag half alone *)
+Definition flag_fn (c : mcall) (w : Z) : Z := match c with MSetLast _ => w | _ => mcall_fn c w end.
+
+(* ---- the lost-update witness -------------------------------------------------- *)
+(* two threads; thread 0 executes its first atomic call, thread 1 runs to completion, thread 0
+   executes the rest: [T0.load; T1.load; T1.store; T0.store] for load-then-store mutators.  The
+   surplus entries let a retry loop finish (a finished thread stutters). *)
+Definition witness_sched : list nat := [0; 1; 1; 1; 1; 0; 0; 0; 0]%nat.
+Definition serial01 : list nat := [0; 0; 0; 0; 1; 1; 1; 1]%nat.
+Definition serial10 : list nat := [1; 1; 1; 1; 0; 0; 0; 0]%nat.
+
+Record witness_result : Type := Witness {
+  wr_final : Z;            (* the word after witness_sched *)
+  wr_done : bool;          (* both calls returned *)
+  wr_serial01 : Z;         (* the word when call 0 runs entirely before call 1 *)
+  wr_serial10 : Z;         (* ... and the other way round *)
+  wr_lost : bool           (* both returned and the word is neither of the two serial results *)
+}.
+
+Definition lost_update_witness (c0 c1 : call) (w0 : Z) : witness_result :=
+  let cf := run_sched (init w0 [c0; c1]) witness_sched in
+  let s01 := run_sched (init w0 [c0; c1]) serial01 in
+  let s10 := run_sched (init w0 [c0; c1]) serial10 in
+  Witness (fst cf) (all_done cf) (fst s01) (fst s10)
+          (all_done cf && all_done s01 && all_done s10 && negb (fst cf =? fst s01) && negb (fst cf =? fst s10)).
